@@ -103,6 +103,12 @@ func ensureIntrinsics(pkg *types.Package) {
 		sig := types.NewSignatureType(nil, nil, []*types.TypeParam{tp}, types.NewTuple(v("c", boolT), v("a", tp), v("b", tp)), types.NewTuple(v("", tp)), false)
 		sc.Insert(types.NewFunc(token.NoPos, pkg, "ite", sig))
 	}
+	// same[T](a, b T) bool: identical values (floats compared bitwise-structurally, so NaN is same as NaN)
+	{
+		tp := mkTP("T")
+		sig := types.NewSignatureType(nil, nil, []*types.TypeParam{tp}, types.NewTuple(v("a", tp), v("b", tp)), types.NewTuple(v("", boolT)), false)
+		sc.Insert(types.NewFunc(token.NoPos, pkg, "same", sig))
+	}
 	// has[K comparable, V any](m map[K]V, k K) bool
 	{
 		k := types.NewTypeParam(types.NewTypeName(token.NoPos, pkg, "K", nil), types.Universe.Lookup("comparable").Type())
@@ -636,6 +642,18 @@ func (e *SpecEnv) intrinsic(name string, n *ast.CallExpr, targs []types.Type) Va
 	case "ite":
 		c := e.eval(n.Args[0]).(*Term)
 		return iteVal(c, e.eval(n.Args[1]), e.eval(n.Args[2]))
+	case "same":
+		a, b := e.eval(n.Args[0]), e.eval(n.Args[1])
+		a, b = e.coerce(a, b)
+		la, lb := flatten(a, nil), flatten(b, nil)
+		if len(la) != len(lb) {
+			e.fail("same() on values of different shape")
+		}
+		var cs []*Term
+		for i := range la {
+			cs = append(cs, SameVal(la[i], lb[i]))
+		}
+		return And(cs...)
 	case "has":
 		m := e.eval(n.Args[0]).(*Term)
 		mt := e.typeOf(n.Args[0]).Underlying().(*types.Map)
